@@ -59,6 +59,10 @@ import Pog.Lemmas.ParserFaithful
 -/
 -- MODULE Pog.Props.C02b
 -- MODULE Pog.Props.C02c
+-- MODULE Pog.Props.C02d
+-- MODULE Pog.Props.C02e
+-- INDEX Pog.C02e: own_prims_faithful, own_override_faithful, own_chain_faithful, own_siblings_faithful, parse_faithful_own_prim_depth_counterexample, own_dup_key_model_vs_denotation
+-- INDEX Pog.C02d: spec_keys_unique, every_declared_name_registered3, model_keys_are_spec_keys3, model_required_iff_spec3, model_kind_is_spec_kind3, model_invariant_under_permutation3, petDog_spec
 -- INDEX Pog.C02c: simple2_imp_simple3, inFragment2_imp_inFragment3, parse_faithful_partial3, inFragment3_sound, petDecls_simple3, simple3_strict, parse_faithful_enum_ctx_shared_counterexample, parse_faithful_enum_ctx_dup_counterexample, parse_faithful_enum_ctx_declared_counterexample, parse_faithful_enum_depth_counterexample
 -- INDEX Pog.C02b: simple_imp_simple2, parse_faithful_partial2, inFragment2_sound, invDecls_simple2, simple2_strict, parse_faithful_map_ctx_counterexample, parse_faithful_map_depth_counterexample
 -- INDEX Pog.ResolveProps: resolve_optional_iff_not_required, union_members_nodup_and_cover, dispatch_union
